@@ -153,6 +153,8 @@ mut('c10-utf16-surrogate-drop', ['C10'], 'src/reader/encoding.rs', "let chars = 
 mut('c10-utf8-error-len-skip-one', ['C10'], 'src/reader/encoding.rs', "src = &src[valid_up_to + error_len..];", "src = &src[valid_up_to + 1..];")
 mut('c10-bom-utf8-not-skipped', ['C10','C05'], 'src/reader/encoding.rs', "[0xEF, 0xBB, 0xBF, ..] => (Self::Utf8, 3),", "[0xEF, 0xBB, 0xBF, ..] => (Self::Utf8, 0),")
 
+mut('c02-revert-F9', ['C02','C04'], 'src/section/hit_objects/slider/curve.rs', "    if d == 0.0 {\n        return None;\n    }", "    if false {\n        return None;\n    }")
+
 # ---- C15
 mut('c15-sort-unstable', ['C15'], 'src/section/hit_objects/decode.rs', "hit_objects.sort_by(|a, b| a.start_time.total_cmp(&b.start_time));", "hit_objects.sort_unstable_by(|a, b| a.start_time.total_cmp(&b.start_time));")
 mut('c15-leniency-0', ['C15'], 'src/section/hit_objects/decode.rs', "const CONTROL_POINT_LENIENCY: f64 = 5.0;", "const CONTROL_POINT_LENIENCY: f64 = 0.0;")
@@ -164,3 +166,6 @@ mut('c15-velocity-uses-end-point', ['C15'], 'src/section/hit_objects/decode.rs',
 mut('c15-force-combo-sticky', ['C15'], 'src/section/hit_objects/decode.rs', "            force_new_combo = false;\n        }", "            if !matches!(h.kind, HitObjectKind::Hold(_)) { force_new_combo = false; }\n        }")
 
 # (equivalent: the 1000 vs 10000 upper clamp of the precision-adjusted beat length never binds because slider velocity is already clamped to [0.1, 10])
+
+# ---- dimensions added after round 4 of the seeded changes
+mut('c14-version-dependent-first-object', ['C14','C15'], 'src/section/hit_objects/decode.rs', "            last_object: None,", "            last_object: if version < 5 { Some(HitObjectType(1)) } else { None },")
